@@ -34,7 +34,7 @@ def parse_hist(out):
         elif t[1] == "ORIGVALS": h["origvals"] = {k: int(v) for k, v in kv(t[2]).items()}
         elif t[1] == "END": h["end"] = kv(",".join(t[2:]))
         elif t[1] == "CHILD": h["child"] = t[2]
-        elif t[1].startswith("L") and len(t) > 2 and t[2] == "MAPOVER":
+        elif t[1].startswith("L") and len(t) > 2 and t[2] in ("MAPOVER", "MAPNOW"):
             h.setdefault("mapover", []).append(t[3])
         elif t[1].startswith("L"):
             li = int(t[1][1:]); tag = t[2]
@@ -83,7 +83,7 @@ EXPECT = {"raw": 1000, "unc": 1000, "clo": 2000, "fake": 3000, "rawalias": 1000}
 SITE_N = {0: 0, 1: 1, 2: 2, 3: 3, 4: 1, 5: 2, 6: None, 7: 7}
 SITE_WHEN = {0: True, 1: True, 2: True, 3: True, 4: True, 5: False, 6: True, 7: False}
 
-MARKERS = ("MAPOVER", "UNWIND", "THREAD", "RXDENY")
+MARKERS = ("MAPOVER", "UNWIND", "THREAD", "RXDENY", "MAPNOW")
 def plain(lifetimes):
     """the operations proper: context / environment markers removed; `E:<slot>:<k>` (the fake! expression of call site k evaluated now, installed
     later) removed and `T:<t>:@<slot>` rewritten to `T:<t>:<k>`: for the model and the judges, what counts is WHEN the pair is installed"""
